@@ -799,4 +799,149 @@ theorem serveTCP_eq (s : Bytes) :
         simp only [ok_bind]
         cases unmarshal ((s.take n).drop 5) <;> rfl
 
+/-! ### `frame` loses nothing: the parts, put together again with their length prefixes, are the message -/
+
+def encRawExts : List (Nat × Bytes) → Bytes
+  | [] => []
+  | e :: es => enc16 e.1 ++ (enc16 e.2.length ++ e.2) ++ encRawExts es
+
+/-- the wire form of the parts of a ClientHello -/
+def reassemble (rh : RawHello) : Bytes :=
+  rh.fixed ++ ((UInt8.ofNat rh.sessionId.length :: rh.sessionId) ++
+    ((enc16 rh.cipherSuites.length ++ rh.cipherSuites) ++
+      ((UInt8.ofNat rh.compressionMethods.length :: rh.compressionMethods) ++
+        (match rh.extensions with
+         | none => []
+         | some es => enc16 (encRawExts es).length ++ encRawExts es))))
+
+theorem enc16_be (a b : UInt8) : enc16 (a.toNat * 256 + b.toNat) = [a, b] := by
+  have ha := a.toNat_lt
+  have hb := b.toNat_lt
+  have h1 : (a.toNat * 256 + b.toNat) / 256 = a.toNat := by omega
+  have h2 : (a.toNat * 256 + b.toNat) % 256 = b.toNat := by omega
+  simp [enc16, h1, h2]
+
+theorem rdBytes_eq {n : Nat} {d x r : Bytes} (h : rdBytes n d = some (x, r)) : x ++ r = d ∧ x.length = n := by
+  unfold rdBytes at h
+  split at h
+  · rename_i hl
+    simp only [Option.some.injEq, Prod.mk.injEq] at h
+    obtain ⟨h1, h2⟩ := h
+    subst h1 h2
+    exact ⟨List.take_append_drop n d, by rw [List.length_take]; omega⟩
+  · cases h
+
+theorem rdVec16_eq {d x r : Bytes} (h : rdVec16 d = some (x, r)) : enc16 x.length ++ x ++ r = d := by
+  match d, h with
+  | [], h => simp [rdVec16] at h
+  | [_], h => simp [rdVec16] at h
+  | a :: b :: t, h =>
+    simp only [rdVec16] at h
+    obtain ⟨h1, h2⟩ := rdBytes_eq h
+    rw [h2, enc16_be, List.append_assoc, h1]
+    rfl
+
+theorem rdVec8_eq {d x r : Bytes} (h : rdVec8 d = some (x, r)) : (UInt8.ofNat x.length :: x) ++ r = d := by
+  match d, h with
+  | [], h => simp [rdVec8] at h
+  | a :: t, h =>
+    simp only [rdVec8] at h
+    obtain ⟨h1, h2⟩ := rdBytes_eq h
+    rw [h2, List.cons_append, h1]
+    simp
+
+theorem splitExts_eq : ∀ (fuel : Nat) (d : Bytes) (es : List (Nat × Bytes)), splitExts fuel d = some es →
+    encRawExts es = d
+  | 0, _, _, h => by simp [splitExts] at h
+  | fuel+1, [], es, h => by
+    simp only [splitExts, Option.some.injEq] at h
+    subst h; rfl
+  | fuel+1, [_], _, h => by simp [splitExts] at h
+  | fuel+1, a :: b :: t, es, h => by
+    rw [splitExts] at h
+    cases hv : rdVec16 t with
+    | none => rw [hv] at h; cases h
+    | some p =>
+      obtain ⟨body, rest⟩ := p
+      rw [hv] at h
+      simp only at h
+      cases hs : splitExts fuel rest with
+      | none => rw [hs] at h; cases h
+      | some es' =>
+        rw [hs] at h
+        simp only [Option.map_some, Option.some.injEq] at h
+        subst h
+        have ih := splitExts_eq fuel rest es' hs
+        have hb := rdVec16_eq hv
+        simp only [encRawExts, enc16_be, ih]
+        rw [← hb]
+        simp
+
+theorem frame_reassemble (b : Bytes) (rh : RawHello) (h : frame b = some rh) : reassemble rh = b := by
+  unfold frame at h
+  cases h1 : rdBytes 38 b with
+  | none => rw [h1] at h; cases h
+  | some p1 =>
+    obtain ⟨fixed, d1⟩ := p1
+    rw [h1] at h
+    simp only at h
+    cases h2 : rdVec8 d1 with
+    | none => rw [h2] at h; cases h
+    | some p2 =>
+      obtain ⟨sid, d2⟩ := p2
+      rw [h2] at h
+      simp only at h
+      unfold frameCiphers at h
+      cases h3 : rdVec16 d2 with
+      | none => rw [h3] at h; cases h
+      | some p3 =>
+        obtain ⟨cs, d3⟩ := p3
+        rw [h3] at h
+        simp only at h
+        split at h
+        · cases h
+        unfold frameCompression at h
+        cases h4 : rdVec8 d3 with
+        | none => rw [h4] at h; cases h
+        | some p4 =>
+          obtain ⟨comp, d4⟩ := p4
+          rw [h4] at h
+          simp only at h
+          have e1 := (rdBytes_eq h1).1
+          have e2 := rdVec8_eq h2
+          have e3 := rdVec16_eq h3
+          have e4 := rdVec8_eq h4
+          unfold frameExts at h
+          by_cases h0 : d4.length = 0
+          · rw [if_pos h0] at h
+            simp only [Option.map_some, Option.some.injEq] at h
+            subst h
+            have : d4 = [] := List.eq_nil_of_length_eq_zero h0
+            subst this
+            simp only [reassemble]
+            rw [← e1, ← e2, ← e3, ← e4]
+          · rw [if_neg h0] at h
+            cases h5 : rdVec16 d4 with
+            | none => rw [h5] at h; cases h
+            | some p5 =>
+              obtain ⟨ext, rest⟩ := p5
+              rw [h5] at h
+              simp only at h
+              split at h
+              · cases h
+              rename_i hr
+              cases h6 : splitExts (ext.length + 1) ext with
+              | none => rw [h6] at h; cases h
+              | some es =>
+                rw [h6] at h
+                simp only [Option.map_some, Option.some.injEq] at h
+                subst h
+                have e5 := rdVec16_eq h5
+                have e6 := splitExts_eq _ _ _ h6
+                have : rest = [] := List.eq_nil_of_length_eq_zero (Classical.not_not.mp hr)
+                subst this
+                simp only [reassemble, e6]
+                rw [← e1, ← e2, ← e3, ← e4, ← e5]
+                simp
+
 end Fabio.Lemmas.C10
